@@ -17,6 +17,7 @@ SCENARIOS = [
     (r'EventBus\._get_next_event/raises:cancel_not_swallowed|EventBus\._run_loop/callsite:step/requires:not_after_cancel', 'rp_exit_with_running_bus.py'),
     (r'EventBus\.step/.*task_done|EventBus\.step/inv.*queue_accounting', 'rp_idle_after_fault.py'),
     (r'EventBus\.process_event/raises:only_declared', 'rp_recursion_guard_hang.py'),
+    (r'EventBus\.process_event/raises:cancelled:completion_attempted', 'rp_inline_victim_never_completes.py'),
     (r'EventBus\.(_would_create_loop/(ensures|raises:recursion_guard)|execute_handler/raises:already_started|_get_applicable_handlers/ensures)', 'rp_redispatch_runs_once.py'),
     (r'EventBus\._execute_handlers/raises:cancellederror_only_if_task_cancelled', 'rp_handler_raises_cancelled.py'),
     (r'EventBus\._execute_handlers/(ensures:no_handler_task_left_running|loop#\d+:.*(awaited_so_far_are_done|every_task_is_remembered|one_task_per_handler))', 'rp_parallel_sibling_running.py'),
